@@ -10,6 +10,8 @@ The application (scripted by the table, i.e. by the message just delivered):
                        rawDataReceived, hand the rest back with setLineMode(rest);  pause -> pauseProducing()
   stringReceived(s):   table[s] = (switch, pause): switch -> rest = self.recvd; self.recvd = b""; every later delivery
                        goes to the other consumer;  pause -> pauseProducing()
+  pause = "pr":        pauseProducing() immediately followed by resumeProducing() inside the same callback (re-entrant
+                       dataReceived(b"")): the model treats it as no pause at all
 "r" = resumeProducing(); at the end of every case the harness resumes until nothing is paused.
 Observation: L:<hex> S:<hex> X N:<n> C as in c16.py, R:<hex> = raw bytes (consecutive pieces merged), P! = a callback ran
 while the receiver was paused (never expected), " |open|closed".
@@ -58,6 +60,8 @@ def run_impl(case, ops):
                         self.setRawMode()
                     if act[1]:
                         self.pauseProducing()
+                        if act[1] == "pr":            # ... and resumes at once, from inside the callback
+                            self.resumeProducing()
 
             def rawDataReceived(self, data):
                 if self.paused:
@@ -97,6 +101,8 @@ def run_impl(case, ops):
                         _raw(events, rest)
                     if act[1]:
                         self.pauseProducing()
+                        if act[1] == "pr":
+                            self.resumeProducing()
 
             def dataReceived(self, data):
                 if self.switched:
@@ -222,7 +228,10 @@ def oracle1(case, ops, obs):
             n += 1
         g = got[n] if n < len(got) else "-"
         w = want[n] if n < len(want) else "-"
-        if g[0] == "R" or w[0] == "R":
+        msgs = lambda l: [e for e in l if e[0] in "LS"]
+        if len(msgs(got)) > len(msgs(want)) and set(msgs(got)) <= set(msgs(want)) and "X" not in got:
+            tag = f"{kind}-message-delivered-more-than-once"
+        elif g[0] == "R" or w[0] == "R":
             tag = f"{kind}-raw-bytes-differ"
         elif g in ("X", "C") or g.startswith("N:"):
             tag = f"{kind}-within-limit-rejected"
@@ -264,7 +273,7 @@ def gen_line_case(rng, long=False):
     for _ in range(rng.choice([1, 2, 3])):
         t = word(rng.randrange(0, min(mx, 3) + 1))
         if delim not in t + delim[:-1] or True:
-            triggers.append([t.hex(), rng.choice([None, 0, 1, 2, 3, 5, mx, mx + 3]), rng.random() < 0.35])
+            triggers.append([t.hex(), rng.choice([None, 0, 1, 2, 3, 5, mx, mx + 3]), rng.choice([False, False, False, True, True, "pr"])])
     parts = []
     for _ in range(rng.randrange(1, 4 if not long else 9)):
         r = rng.random()
@@ -286,7 +295,7 @@ def gen_int_case(rng, long=False):
     msg = lambda n: bytes(rng.choice(b"ab\x00") for _ in range(n))
     table = []
     for _ in range(rng.choice([1, 2])):
-        table.append([msg(rng.randrange(0, 3)).hex(), rng.random() < 0.5, rng.random() < 0.4])
+        table.append([msg(rng.randrange(0, 3)).hex(), rng.random() < 0.5, rng.choice([False, False, False, True, True, "pr", "pr"])])
     parts = []
     for _ in range(rng.randrange(1, 5 if not long else 10)):
         s = bytes.fromhex(rng.choice(table)[0]) if rng.random() < 0.45 else msg(rng.choice([0, 1, mx - 1, mx, mx + 1]))
@@ -323,6 +332,17 @@ def gen(rng, tier):
         for _ in range(4 * n_short if not thorough else 12 * n_short):
             c, s = g(rng, long=rng.random() < 0.5)
             cases.append({**c, "ops": random_ops(rng, s)})
+    # pauseProducing() + resumeProducing() from inside the callback, at each message index, whole and cut everywhere
+    for k in (1, 2, 4):
+        msgs = [b"a", b"b", b"c", b"d"]
+        s = b"".join(len(m).to_bytes(k, "big") + m for m in msgs) + b"\x00"[: k - 1]
+        for m in msgs:
+            cases.append({"kind": "intapp", "k": k, "max": 5, "table": [[m.hex(), False, "pr"]], "stream": s.hex(),
+                          "family": "all" if k == 1 else "upto3"})
+        cases.append({"kind": "intapp", "k": k, "max": 5, "table": [[m.hex(), False, "pr"] for m in msgs], "ops": [["d", s.hex()]]})
+    for m in (b"a", b"b", b"c"):
+        cases.append({"kind": "lineapp", "max": 5, "delim": "0d0a", "table": [[m.hex(), None, "pr"]],
+                      "stream": b"a\r\nb\r\nc\r\nd\r\n".hex(), "family": "upto3"})
     # a pausing message followed, in the same delivery or while paused, by many complete short messages
     from harness.c16 import DELIMS
     for _ in range(n_short):
@@ -358,6 +378,9 @@ def corpus():
          "ops": [["d", "0001"], ["d", "61000273"], ["d", "77ffff00"], ["d", "0102"]]},
         {"kind": "intapp", "k": 1, "max": 10, "table": [["70", False, True]], "ops": [["d", "0170016101"], ["d", "62"], ["r"], ["r"]]},
         {"kind": "intapp", "k": 1, "max": 10, "table": [["", True, True]], "stream": "016100ffee", "family": "all"},
+        # stringReceived pauses and resumes in the same call: every string exactly once, in order
+        {"kind": "intapp", "k": 1, "max": 10, "table": [["62", False, "pr"]], "ops": [["d", "0161016201630164"]]},
+        {"kind": "intapp", "k": 2, "max": 10, "table": [["61", False, "pr"]], "ops": [["d", "000161"], ["d", "00016200016300"]]},
     ]
 
 
@@ -366,7 +389,7 @@ def corpus():
 
 
 def to_coq(case):
-    b = lambda x: "true" if x else "false"
+    b = lambda x: "true" if x is True else "false"        # "pr" (pause + resume in the same callback) = not paused
     if case["kind"] == "lineapp":
         rows = [f"({coq_bytes(bytes.fromhex(l))}, ({'None' if k is None else f'Some {k}%nat'}, {b(p)}))" for l, k, p in case["table"]]
         head = f"{case['max']}%nat {coq_bytes(bytes.fromhex(case['delim']))} {coq_list(rows, '(bytes * (option nat * bool))')}"
